@@ -23,7 +23,7 @@ func TestC19GeneratedEnums(t *testing.T) {
 	rec.Require("generated-ordinary-enum", "generated-bitmask-enum", "bitmask-attribute-spelled-0-or-false", "bitmask-attribute-spelled-1", "second-definition-sharing-the-included-files")
 	root := scratch(t)
 	defer os.RemoveAll(root)
-	evid.Check(t, rec, evid.N(8, 40), func(t *rapid.T) {
+	evid.Check(t, rec, evid.N(14, 50), func(t *rapid.T) {
 		caseCounter++
 		caseDir := fmt.Sprintf("e%d", caseCounter)
 		nb := rapid.IntRange(4, 8).Draw(t, "batch")
@@ -95,6 +95,9 @@ func TestC19GeneratedEnums(t *testing.T) {
 			ord, bm := false, false
 			for _, f := range d.Files {
 				for _, e := range f.Enums {
+					if len(e.Entries) == 0 && e.Bitmask {
+						cls = append(cls, "bitmask-enum-announced-without-entries-by-an-included-file")
+					}
 					if e.Bitmask {
 						bm = true
 						if e.AttrStyle%2 == 1 {
